@@ -81,7 +81,14 @@ def decode(j):
         return np.array([decode(x) for x in j["v"]])
     if t == "dictv":
         return {k: decode(x) for k, x in j["v"].items()}
+    if t == "npbool":
+        return np.bool_(j["v"])
     raise ValueError(t)
+
+
+def decode_flag(e):
+    """the `enabled` flag of a model as the configuration / the constructor hands it over: a bool, or any other value"""
+    return decode(e) if isinstance(e, dict) else e
 
 
 # ------------------------------------------------------------------------------------------ guards
@@ -113,12 +120,21 @@ def public(n: str) -> bool:
     return not n.startswith("_")
 
 
+def class_leaf(o, n):
+    """what reading a class-level name on the object gives, as Processor.get would show it"""
+    try:
+        v = getattr(o, n)
+    except Exception:  # noqa: BLE001 - a getter that refuses to answer
+        return {"leaf": {"t": "opaque", "v": "raises"}}
+    return {"leaf": canon_get(n, v)}
+
+
 def tree_of(o, keep: set, depth=0):
     """keep = the components of the key under test: class-level names other than readable settings are listed
     only when the key mentions them (nothing else can influence has/get/set on this key; they cannot change)."""
     cls = type(o).__name__
     if isinstance(o, dict) and type(o) is dict:
-        ms = [[n, "class", None, {"leaf": {"t": "opaque", "v": "method"}}] for n in sorted(dir(dict)) if public(n) and n in keep]
+        ms = [[n, "class", None, class_leaf(o, n)] for n in sorted(dir(dict)) if n in keep]
         for k, v in o.items():
             if isinstance(k, str):
                 ms.append([k, "item", None, tree_of(v, keep, depth + 1)])
@@ -130,7 +146,7 @@ def tree_of(o, keep: set, depth=0):
     if cls == "DetectionPipeline":
         groups = set(o.MODEL_GROUPS)
     for n in sorted(set(dir(type(o)))):
-        if not public(n):
+        if not public(n) and n not in keep:
             continue
         attr = inspect.getattr_static(type(o), n)
         if isinstance(attr, property):
@@ -145,9 +161,10 @@ def tree_of(o, keep: set, depth=0):
                     sub = {"leaf": {"t": "none"}}
                 ms.append([n, "prop1" if settable else "prop0", guard, sub])
             elif n in keep:
-                ms.append([n, "prop1" if settable else "prop0", guard, {"leaf": {"t": "opaque", "v": "prop"}}])
+                ms.append([n, "prop1" if settable else "prop0", guard, class_leaf(o, n)])
         elif n in keep:
-            ms.append([n, "class", None, {"leaf": {"t": "opaque", "v": "method"}}])
+            # a method / class constant / slot the key names: what reading it gives (a method, a constant value)
+            ms.append([n, "class", None, class_leaf(o, n)])
     for n, v in vars(o).items():
         if public(n):
             sub = tree_of(v, keep, depth + 1)
@@ -202,7 +219,7 @@ def make_processor(p):
     for g, models in p["pipe"].items():
         kw[g] = [ModelFunction(func=m["func"], name=m["name"],
                                arguments={k: decode(v) for k, v in m.get("arguments", {}).items()},
-                               enabled=m.get("enabled", True)) for m in models]
+                               enabled=decode_flag(m.get("enabled", True))) for m in models]
     return Processor(detector=make_detector(p["det"]), pipeline=DetectionPipeline(**kw))
 
 
@@ -273,13 +290,35 @@ def do_validate(p):
     from pyxel.observation import Observation, ParameterValues
 
     proc = make_processor(p)
+    # the flag (or anything else) may have arrived by an assignment through a key before the sweep is set up
+    pre_refused = 0
+    for key, value, path in p.get("pre", []):
+        try:
+            if path == "override":
+                from pyxel.run import apply_overrides
+                apply_overrides(overrides={key: decode(value)}, processor=proc, mode=None)
+            else:
+                proc.set(key, decode(value))
+        except Exception:  # noqa: BLE001 - a refused assignment is simply not part of the history (the key may be misspelt)
+            pre_refused += 1
     keep = set()
     for k in p["keys"]:
         keep |= set(k.split("."))
         keep.add("enabled")
     before = tree_of(proc, keep)
-    steps = [ParameterValues(key=k, values=[1, 2], enabled=en) for k, en in zip(p["keys"], p["step_enabled"])]
-    obs = Observation(parameters=steps, readout=Readout(times=[1.0]), mode=p.get("mode", "product"))
+    values = p.get("values") or [[{"t": "int", "v": "1"}, {"t": "int", "v": "2"}] for _ in p["keys"]]
+    if p.get("mode") == "custom":
+        # the values of every enabled step come from the columns of a table file, one run per row
+        cols = [[decode(x) for x in vs] for vs, en in zip(values, p["step_enabled"]) if en]
+        with open("custom_c08.txt", "w") as f:
+            for row in zip(*cols):
+                f.write("\t".join(repr(float(x)) for x in row) + "\n")
+        steps = [ParameterValues(key=k, values="_", enabled=en) for k, en in zip(p["keys"], p["step_enabled"])]
+        obs = Observation(parameters=steps, readout=Readout(times=[1.0]), mode="custom", from_file="custom_c08.txt")
+    else:
+        steps = [ParameterValues(key=k, values=[decode(x) for x in vs], enabled=en)
+                 for k, vs, en in zip(p["keys"], values, p["step_enabled"])]
+        obs = Observation(parameters=steps, readout=Readout(times=[1.0]), mode=p.get("mode", "product"))
     res = None
     try:
         obs.validate_steps(proc)
@@ -295,7 +334,33 @@ def do_validate(p):
             ran = {"ok": len(vp.CALLS)}
         except Exception as ex:  # noqa: BLE001
             ran = {"raise": exn_name(ex), "calls": len(vp.CALLS)}
-    return {"before": before, "validate": res, "ran": ran}
+    seen = None
+    if p.get("run"):
+        seen = [sweep_effect(vp.CALLS, k) for k in p["keys"]]
+    return {"before": before, "validate": res, "ran": ran, "seen": seen, "pre_refused": pre_refused}
+
+
+def sweep_effect(calls, key: str):
+    """[how often the model addressed by `pipeline.<group>.<model>...` was executed, the values that arrived in the
+    argument addressed by `...arguments.<a>[.<item>...]`] — from the log of the tagged probe models"""
+    parts = key.split(".")
+    if len(parts) < 3 or parts[0] != "pipeline":
+        return [0, []]
+    tag = parts[1] + "__" + parts[2]
+    mine = [c[1] for c in calls if isinstance(c, list) and len(c) == 2 and c[0] == tag and isinstance(c[1], dict)]
+    vals = []
+    if len(parts) >= 5 and parts[3] == "arguments":
+        for kw in mine:
+            v = kw
+            for q in parts[4:]:
+                if isinstance(v, dict) and q in v:
+                    v = v[q]
+                else:
+                    v = None
+                    break
+            else:
+                vals.append(canon(v) if not isinstance(v, dict) else {"t": "opaque", "v": "dict"})
+    return [len(mine), vals]
 
 
 # ------------------------------------------------------------------------------------------ derived processors
@@ -443,8 +508,49 @@ def do_derive(p):
             "shared": shared, "internal": internal_sharing(proc)[:5]}
 
 
+def do_names(p):
+    """the class-level names (methods, class constants, read-only properties) of every kind of object a key can land on:
+    input material for the generator only (keys whose last component is such a name)"""
+    proc = make_processor(p)
+    g = next(iter(p["pipe"]))
+    m = p["pipe"][g][0]
+    group = getattr(proc.pipeline, g)
+    model = getattr(group, m["name"])
+    objs = {"Processor": proc, "Detector": proc.detector, "Geometry": proc.detector.geometry,
+            "Environment": proc.detector.environment, "Characteristics": proc.detector.characteristics,
+            "DetectionPipeline": proc.pipeline, "ModelGroup": group, "ModelFunction": model,
+            "Arguments": model.arguments, "dict": {}}
+    out = {}
+    for label, o in objs.items():
+        rows = []
+        for n in sorted(set(dir(type(o)))):
+            attr = inspect.getattr_static(type(o), n)
+            if isinstance(attr, property):
+                if n in NO_READ:
+                    kind = "prop_volatile"       # reading it changes private caches of the object
+                elif attr.fset is not None:
+                    kind = "prop_rw"
+                else:
+                    try:
+                        kind = "prop_ro_plain" if is_plain(getattr(o, n)) else "prop_ro_object"
+                    except Exception:  # noqa: BLE001
+                        kind = "prop_raises"
+            else:
+                try:
+                    v = getattr(o, n)
+                except Exception:  # noqa: BLE001
+                    kind = "raises"
+                else:
+                    kind = "method" if callable(v) else ("constant" if is_plain(v) else "object")
+            rows.append([n, kind])
+        out[label] = rows
+    return {"names": out}
+
+
 def handle(p):
     op = p["op"]
+    if op == "names":
+        return do_names(p)
     if op == "set":
         return do_set(p)
     if op == "eval":
